@@ -18,7 +18,7 @@ func init() {
 		ID:        "C08",
 		Run:       runC08,
 		Technique: "runtime limit-table monitor: every wire limit probed at limit-1, limit, limit+1 and far beyond, in random surroundings and list positions; accepted output checked for faithfulness against the reference encoding",
-		Rule: "a table of every wire limit named in the statement (report/chunk/source counts, Header.Count, APP subtype, TWCC header count, SDES text, BYE reason, cumulative lost, REMB SSRC count, CCFB metric blocks per block, APP name length, REMB bitrate sign, TWCC small/large delta ranges, SDES item type 0) x 4 levels x random surrounding values and positions; " +
+		Rule: "a table of every wire limit named in the statement (report/chunk/source counts, Header.Count, APP subtype, TWCC header count, SDES text, BYE reason, cumulative lost, REMB SSRC count, CCFB metric blocks per block, APP name length, REMB bitrate sign, TWCC small/large delta ranges, SDES item type 0; and the capacity of a TWCC status vector chunk, whose overflow the library refuses) x 4 levels x random surrounding values and positions; " +
 			"over the limit => error and no octets; at/under => nil error and octets identical to the independent reference encoding of the value (so every count/length/bounded field represents the content); " +
 			"non-trivial = every probe; distinct by digest of (cell, level, value)",
 		Assumptions: []string{
@@ -295,6 +295,55 @@ func c08Cells() []c08Cell {
 			}
 			d.Delta = u * 250
 			return pkt(t, l >= 2)
+		}},
+		// a status vector chunk holds 14 one-bit or 7 two-bit symbols: a longer list cannot be
+		// represented, so success would mean that symbols were dropped
+		{"StatusVectorChunk.symbols", func(r *core.Rand, l int) c08Probe {
+			size := uint16(r.Intn(2))
+			capn := 14 >> size
+			n, over := lvl(l, capn-1, capn, capn+1, capn+2+r.Intn(40))
+			ch := rtcp.StatusVectorChunk{Type: 1, SymbolSize: size, SymbolList: make([]uint16, n)}
+			w := uint16(0x8000) | size<<14
+			for i := range ch.SymbolList {
+				ch.SymbolList[i] = uint16(r.Intn(2 << size))
+				if size == 1 && ch.SymbolList[i] == 3 {
+					ch.SymbolList[i] = 2
+				}
+				if i < capn {
+					w |= ch.SymbolList[i] << (14 - (uint(i)+1)*(1+uint(size)))
+				}
+			}
+			return c08Probe{over: over, marshal: ch.Marshal, want: []byte{byte(w >> 8), byte(w)}, value: ch}
+		}},
+		{"TWCC.vector-symbols-in-packet", func(r *core.Rand, l int) c08Probe {
+			for {
+				m := gen.TWCCModelGen(r, gen.Opts{Small: true})
+				t := m.Value(m.Chunks(r, gen.ChunkOpts{}))
+				var vs []*rtcp.StatusVectorChunk
+				for _, c := range t.PacketChunks {
+					if v, ok := c.(*rtcp.StatusVectorChunk); ok {
+						vs = append(vs, v)
+					}
+				}
+				if len(vs) == 0 {
+					continue
+				}
+				v := vs[r.Intn(len(vs))]
+				v.SymbolList = append([]uint16(nil), v.SymbolList...)
+				switch l {
+				case 0:
+					if n := len(v.SymbolList); n > 0 && v.SymbolList[n-1] == 0 {
+						v.SymbolList = v.SymbolList[:n-1] // the same statuses with a shorter list
+					}
+				case 2:
+					v.SymbolList = append(v.SymbolList, uint16(r.Intn(2)))
+				case 3:
+					for i := 2 + r.Intn(30); i > 0; i-- {
+						v.SymbolList = append(v.SymbolList, uint16(r.Intn(2)))
+					}
+				}
+				return pkt(t, l >= 2)
+			}
 		}},
 		{"SDES.item-type-0", func(r *core.Rand, l int) c08Probe {
 			s := gen.Packet(r, gen.SDES, gen.Opts{Small: true}).(*rtcp.SourceDescription)
